@@ -56,9 +56,11 @@ func (v Value) One() *Term {
 var sArrII = SArr(SInt)
 
 func typeName(t types.Type) string {
-	s := types.TypeString(t, func(p *types.Package) string { return p.Name() })
-	s = strings.NewReplacer(" ", "_", "{", "(", "}", ")", ";", ",", "\"", "'").Replace(s)
-	return s
+	return ifaceName(types.TypeString(t, func(p *types.Package) string { return p.Name() }))
+}
+
+func ifaceName(s string) string {
+	return strings.NewReplacer(" ", "_", "{", "(", "}", ")", ";", ",", "\"", "'").Replace(s)
 }
 
 var flatCache = map[types.Type][]Comp{}
